@@ -143,10 +143,13 @@ def kani_harnesses_for(prop, tier):
     hs = [h for h in kani_crate.parse_harnesses() if prop in kani_crate.props_of(h)]
     if tier == 'quick':
         hs = [h for h in hs if h['tier'] == 'quick']
+    only = os.environ.get('VERIF_ONLY')
+    if only:
+        hs = [h for h in hs if any(o in h['full'] for o in only.split(','))]
     return hs
 
 
-_vals = re.compile(r'^\s*//\s*(.+)$')
+_vals = re.compile(r'^\s*// (.+)$')
 
 
 def do_replay(scratch, h, single_out):
@@ -221,8 +224,8 @@ def run_kani(prop, tier, hs, jobs):
             b = blocks.get(h['full'])
             status, failed = kani_crate.classify(b)
             tm = re.search(r'Verification Time: ([0-9.]+)s', b or '')
-            e = exp.get(h['full'], {})
-            props = e.get('props', {})
+            e = exp.get(h['full']) or {}
+            props = e.get('props') or {}
             covers_total = (props.get('satisfied') or 0) + (props.get('unsatisfiable') or 0)
             m = re.search(r'\*\* (\d+) of (\d+) cover properties satisfied', b or '')
             if m:
@@ -231,7 +234,7 @@ def run_kani(prop, tier, hs, jobs):
                 cov_sat, cov_tot = (props.get('satisfied') or 0), covers_total
             hr = dict(status=status, failed_checks=failed, time_s=float(tm.group(1)) if tm else None,
                       checks_total=props.get('total_properties'), checks_passed=props.get('passed'),
-                      covers=(cov_sat, cov_tot), solver_s=e.get('stats', {}).get('runtime_solver_s'),
+                      covers=(cov_sat, cov_tot), solver_s=(e.get('stats') or {}).get('runtime_solver_s'),
                       stub_lines=[l.strip() for l in (b or '').splitlines() if l.strip().startswith('- Stub:')])
             if status == 'pass' and cov_tot and cov_sat < cov_tot and h['expect'] == 'pass':
                 hr['status'] = 'vacuous'
